@@ -12,7 +12,8 @@
 //!  * `docmut`  every policy document found in the repository: every single-token deletion,
 //!              duplication, adjacent swap, and every byte truncation (at char boundaries);
 //!  * `ladder`  nesting ladders of every depth ≤ D for every nesting construct;
-//!  * `wide`    struct / enum types whose number of values is around 2^64, as match scrutinees.
+//!  * `wide`    struct / enum types whose number of values is around 2^64, as match scrutinees;
+//!  * `rectype` recursive and mutually recursive type definitions and their uses.
 
 use std::{
     collections::BTreeSet,
@@ -583,9 +584,14 @@ impl Space for DocMutSpace {
             // the unmodified document itself
             let text = &self.docs[di].2;
             let before = acc.counters.get("parsed_ok").copied().unwrap_or(0);
+            let compiled_before = acc.counters.get("compiled_ok").copied().unwrap_or(0);
             run_text("docmut", u, u64::MAX - 1, *entry, text, true, acc, &mut accepted, &|| json!({"document": path, "mutation": "none"}));
             if acc.counters.get("parsed_ok").copied().unwrap_or(0) > before {
                 acc.count("documents_parsing_unmodified", 1);
+            }
+            if acc.counters.get("compiled_ok").copied().unwrap_or(0) > compiled_before {
+                acc.count("documents_compiling_unmodified", 1);
+                acc.count(&format!("tally:compiles unmodified: {path}"), 1);
             }
             acc.count("documents", 1);
         }
@@ -904,6 +910,154 @@ impl Space for WideSpace {
 }
 
 // ---------------------------------------------------------------------------------------------
+// recursive / mutually recursive type definitions
+
+struct RecShape {
+    name: &'static str,
+    /// definitions, `N` standing for the struct name under test
+    defs: &'static str,
+    /// a literal of type `struct N` that needs no value of type N, if the shape has one
+    lit: Option<&'static str>,
+    /// source of the type of `N.inner` (for uses that bind it)
+    has_inner_option: bool,
+}
+
+const REC_NAMES: [&str; 2] = ["Envelope", "Rec"];
+
+fn rec_shapes() -> Vec<RecShape> {
+    macro_rules! sh {
+        ($n:expr, $d:expr, $l:expr, $o:expr) => {
+            RecShape { name: $n, defs: $d, lit: $l, has_inner_option: $o }
+        };
+    }
+    vec![
+        sh!("direct", "struct N { inner struct N }\n", None, false),
+        sh!("option", "struct N { inner option[struct N] }\n", Some("N { inner: None }"), true),
+        sh!("option-option", "struct N { inner option[option[struct N]] }\n", Some("N { inner: None }"), true),
+        sh!("result-ok", "struct N { inner result[struct N, int] }\n", Some("N { inner: Err(1) }"), false),
+        sh!("result-err", "struct N { inner result[int, struct N] }\n", Some("N { inner: Ok(1) }"), false),
+        sh!("option-and-bools", "struct N { a bool, inner option[struct N], b bool }\n", Some("N { a: true, inner: None, b: false }"), true),
+        sh!("mutual-A-first", "struct A { b option[struct N] }\nstruct N { inner option[struct A] }\n", Some("N { inner: None }"), true),
+        sh!("mutual-N-first", "struct N { inner option[struct A] }\nstruct A { b option[struct N] }\n", Some("N { inner: None }"), true),
+        sh!("mutual-direct-field", "struct A { b struct N }\nstruct N { inner option[struct A] }\n", Some("N { inner: None }"), true),
+        sh!("mutual-direct-both", "struct A { b struct N }\nstruct N { inner struct A }\n", None, false),
+        sh!("three-cycle", "struct A { b option[struct B] }\nstruct B { n option[struct N] }\nstruct N { inner option[struct A] }\n", Some("N { inner: None }"), true),
+        sh!("insertion-self", "struct N { +N }\n", None, false),
+        sh!("insertion-of-recursive", "struct N { inner option[struct N] }\nstruct X { +N, x int }\nstruct Y { y option[struct X] }\n", Some("N { inner: None }"), true),
+        sh!("insertion-mutual", "struct A { +N, x int }\nstruct N { inner option[struct A] }\n", Some("N { inner: None }"), true),
+        sh!("insertion-cycle", "struct A { +N }\nstruct N { +A }\n", None, false),
+        sh!("effect", "effect N { inner option[struct N] }\n", Some("N { inner: None }"), true),
+        sh!("fact-value", "fact N[k int]=>{inner option[struct N]}\n", None, true),
+        sh!("command-fields", "command N {\n fields { inner option[struct N] }\n seal { return todo() }\n open { return todo() }\n policy { finish {} }\n}\n", Some("N { inner: None }"), true),
+        sh!("enum-not-recursive", "enum N { A, B }\nstruct S { e enum N, o option[enum N] }\n", None, false),
+    ]
+}
+
+const REC_USES: [&str; 16] = [
+    "definitions-only",
+    "function-parameter",
+    "match-inner-without-default",
+    "match-inner-with-default",
+    "match-option-param-without-default",
+    "match-expr-inner-without-default",
+    "match-result-param",
+    "struct-literal",
+    "struct-literal-nested",
+    "fact-value",
+    "global-let",
+    "equality-and-is",
+    "composition-and-cast",
+    "return-value",
+    "action-parameter-and-publish",
+    "match-struct-literal-pattern",
+];
+
+pub struct RecSpace {
+    shapes: Vec<RecShape>,
+}
+
+impl RecSpace {
+    fn text_of(&self, u: u64, c: u64) -> Option<(String, String)> {
+        let sh = &self.shapes[(u as usize) / REC_NAMES.len()];
+        let n = REC_NAMES[(u as usize) % REC_NAMES.len()];
+        let usage = *REC_USES.get(c as usize)?;
+        let defs = sh.defs.replace('N', n);
+        let lit = sh.lit.map(|l| l.replace('N', n));
+        let ty = format!("struct {n}");
+        let body = match usage {
+            "definitions-only" => String::new(),
+            "function-parameter" => format!("function f(e {ty}) int {{\n return 0\n}}\n"),
+            "match-inner-without-default" => format!("function f(e {ty}) int {{\n match e.inner {{\n None => {{ return 0 }}\n }}\n return 1\n}}\n"),
+            "match-inner-with-default" => format!("function f(e {ty}) int {{\n match e.inner {{\n None => {{ return 0 }}\n _ => {{ return 1 }}\n }}\n}}\n"),
+            "match-option-param-without-default" => format!("function f(o option[{ty}]) int {{\n match o {{\n None => {{ return 0 }}\n }}\n return 1\n}}\n"),
+            "match-expr-inner-without-default" => format!("function f(e {ty}) int {{\n let r = match e.inner {{\n None => 0\n }}\n return r\n}}\n"),
+            "match-result-param" => format!("function f(r result[{ty}, bool]) int {{\n match r {{\n Err(b) => {{ return 0 }}\n }}\n return 1\n}}\n"),
+            "struct-literal" => format!("function f() int {{\n let v = {}\n return 0\n}}\n", lit.clone()?),
+            "struct-literal-nested" => {
+                if !sh.has_inner_option {
+                    return None;
+                }
+                let l = lit.clone()?;
+                format!("function f() int {{\n let v = {}\n return 0\n}}\n", l.replacen("None", &format!("Some({l})"), 1))
+            }
+            "fact-value" => format!(
+                "fact Holder[k int]=>{{v {ty}}}\nfinish function g(e {ty}) {{\n create Holder[k: 1]=>{{v: e}}\n}}\nfunction f() int {{\n let q = query Holder[k: 1]\n match q {{\n None => {{ return 0 }}\n }}\n return 1\n}}\n"
+            ),
+            "global-let" => format!("let G = {}\nfunction f() int {{\n let v = G\n return 0\n}}\n", lit.clone()?),
+            "equality-and-is" => format!("function f(e {ty}, d {ty}) bool {{\n if e.inner is None {{\n return e == d\n }}\n return e != d\n}}\n"),
+            "composition-and-cast" => format!("struct Twin {{ +{n} }}\nfunction f(e {ty}) int {{\n let t = e as Twin\n let u = {n} {{ ...e }}\n let s = t substruct {n}\n return 0\n}}\n"),
+            "return-value" => format!("function mk(e {ty}) {ty} {{\n return e\n}}\nfunction f(e {ty}) option[{ty}] {{\n return Some(mk(e))\n}}\n"),
+            "action-parameter-and-publish" => format!(
+                "command Carry {{\n fields {{ payload {ty} }}\n seal {{ return todo() }}\n open {{ return todo() }}\n policy {{\n match this.payload.inner {{\n None => {{ finish {{}} }}\n }}\n }}\n}}\naction a(e {ty}) {{\n publish Carry {{ payload: e }}\n}}\n"
+            ),
+            _ => {
+                let l = lit.clone()?;
+                format!("function f(e {ty}) int {{\n match e {{\n {l} => {{ return 0 }}\n }}\n return 1\n}}\n")
+            }
+        };
+        Some((format!("{defs}{body}"), format!("shape {} with name {n}, use {usage}", sh.name)))
+    }
+}
+
+impl Space for RecSpace {
+    fn name(&self) -> &str {
+        "rectype"
+    }
+    fn units(&self) -> u64 {
+        (self.shapes.len() * REC_NAMES.len()) as u64
+    }
+    fn run_unit(&self, u: u64, only: Option<u64>, skip: &BTreeSet<u64>, acc: &mut Acc) {
+        let mut accepted = BTreeSet::new();
+        for c in 0..REC_USES.len() as u64 {
+            if only.is_some_and(|o| o != c) || skip.contains(&c) {
+                continue;
+            }
+            let Some((text, what)) = self.text_of(u, c) else { continue };
+            acc.count("rectype_programs", 1);
+            run_text("rectype", u, c, Entry::Str, &text, false, acc, &mut accepted, &|| json!({"recursive_type": what}));
+        }
+        acc.count("distinct_nontrivial", accepted.len() as u64);
+    }
+    fn describe_fatal(&self, u: u64, c: u64, aux: u64, how: &str) -> (String, String, J) {
+        let (text, what) = self.text_of(u, c).unwrap_or_default();
+        let usage = REC_USES.get(c as usize).copied().unwrap_or("?");
+        let class = if usage.starts_with("match") || usage == "fact-value" || usage == "action-parameter-and-publish" {
+            "match"
+        } else if usage.contains("literal") || usage == "global-let" {
+            "struct literal"
+        } else {
+            usage
+        };
+        let st = if aux == 1 { "parse" } else if aux == 9 { "error display" } else { "compile" };
+        (
+            format!("{st} killed the process ({how}) on a recursive struct type [{class}]"),
+            format!("[rectype] process killed by {how} during {} ({} MiB stack) of {what}:\n{text}", stage_name(aux), common::CHILD_STACK_BYTES >> 20),
+            json!({"recursive_type": what, "text": text}),
+        )
+    }
+}
+
+// ---------------------------------------------------------------------------------------------
 
 pub fn space_by_name(name: &str, args: &Args) -> Box<dyn Space> {
     let t = args.tier == Tier::Thorough;
@@ -919,12 +1073,13 @@ pub fn space_by_name(name: &str, args: &Args) -> Box<dyn Space> {
         "md" => Box::new(MdSpace::new(if t { 5 } else { 4 }, if t { 5 } else { 4 })),
         "docmut" => Box::new(DocMutSpace::new(t)),
         "wide" => Box::new(WideSpace { types: wide_types() }),
+        "rectype" => Box::new(RecSpace { shapes: rec_shapes() }),
         "ladder" => Box::new(LadderSpace { shapes: shapes(), max_depth: if t { 200 } else { 64 }, case_cap_s: if t { 8 } else { 2 } }),
         n => mcx::machinery_error(&format!("C27: unknown space {n}")),
     }
 }
 
-pub const SPACES: [&str; 12] = ["wide", "tok-expr", "tok-expr-fn", "tok-stmt-fn", "tok-stmt-action", "tok-stmt-policy", "tok-stmt-finish", "tok-top", "tok-type", "md", "docmut", "ladder"];
+pub const SPACES: [&str; 13] = ["wide", "rectype", "tok-expr", "tok-expr-fn", "tok-stmt-fn", "tok-stmt-action", "tok-stmt-policy", "tok-stmt-finish", "tok-top", "tok-type", "md", "docmut", "ladder"];
 
 pub fn run(args: &Args) {
     if let Some(name) = args.extra.get("child") {
@@ -955,7 +1110,7 @@ pub fn run(args: &Args) {
     rep.set(
         "rule",
         format!(
-            "token strings (joined by single spaces) of every length ≤L over per-context vocabularies: bare expression L={} ({} tokens, parse_expression; each string that parses is also compiled inside a function), top level L={} ({} tokens), expression / statement-in-function / -action / -policy / -finish templates L={} ({} / {} tokens), type position L={} ({} tokens); Markdown documents of ≤{} lines over {} line kinds (with and without trailing newline; quick: 4-line documents only with); every policy document under crates/ (*.md with front matter, *.policy): unmodified, every token deleted / duplicated / swapped with its successor, every byte truncation (quick: documents >3000 bytes get every token deletion, duplication/swap of every 4th token and truncation at line starts); {} nesting shapes at every depth 1..={} on an {} MiB main-thread stack; wide types (structs of k bool / enum fields for k around the 2^64 value-count boundary, nested 8×8, 256- and 1000-variant enums, mixed with unbounded fields) × 6 option/result wrappers × match statement / expression without default, with default, with binding arms, struct composition and field insertion. Every AST returned by the parser is compiled (debug on/off; documents also with the real FFI schemas and stub_ffi). non-trivial = distinct texts accepted by the grammar (reached the AST builder / compiler)",
+            "token strings (joined by single spaces) of every length ≤L over per-context vocabularies: bare expression L={} ({} tokens, parse_expression; each string that parses is also compiled inside a function), top level L={} ({} tokens), expression / statement-in-function / -action / -policy / -finish templates L={} ({} / {} tokens), type position L={} ({} tokens); Markdown documents of ≤{} lines over {} line kinds (with and without trailing newline; quick: 4-line documents only with); every policy document under crates/ (*.md with front matter, *.policy): unmodified, every token deleted / duplicated / swapped with its successor, every byte truncation (quick: documents >3000 bytes get every token deletion, duplication/swap of every 4th token and truncation at line starts); {} nesting shapes at every depth 1..={} on an {} MiB main-thread stack; wide types (structs of k bool / enum fields for k around the 2^64 value-count boundary, nested 8×8, 256- and 1000-variant enums, mixed with unbounded fields) × 6 option/result wrappers × match statement / expression without default, with default, with binding arms, struct composition and field insertion; recursive type definitions (19 shapes: direct, through option / result, mutual, three-cycle, field insertion, effect / fact / command fields, enum control) under the exempt name `Envelope` and an ordinary name × 16 uses (definitions only, parameters, matches with and without default, literals, fact values, global let, comparison, composition / cast, return values, command payload). Every AST returned by the parser is compiled (debug on/off; documents also with the real FFI schemas and stub_ffi). non-trivial = distinct texts accepted by the grammar (reached the AST builder / compiler)",
             if t { 5 } else { 4 },
             V_EXPR.len(),
             if t { 5 } else { 4 },
@@ -979,7 +1134,7 @@ pub fn run(args: &Args) {
     if rep.counter("wide_programs_not_parsing") > 0 {
         mcx::machinery_error("C27: the wide-type generator produced programs that do not parse (see observations)");
     }
-    for c in ["evaluations", "parsed_ok", "compiled_ok", "documents_parsing_unmodified", "ladder_shapes", "wide_programs_parsed"] {
+    for c in ["evaluations", "parsed_ok", "compiled_ok", "documents_parsing_unmodified", "ladder_shapes", "wide_programs_parsed", "rectype_programs"] {
         rep.require_nonzero(c);
     }
     rep.assume("a panic is an unwind caught by catch_unwind or a fatal signal of the child process (stack exhaustion on an 8 MiB main-thread stack included)");
